@@ -20,6 +20,7 @@ def _knobs(rng, *, conc=True):
         "workdir": rng.choice(["w", "w", "w", "w.v2", "my data", "résultats"]),
         "relpath": rng.choice([None, None, None, None, "", "./"]),
         "pct_depth": rng.choice([0, 0, 0, 0, 0, 1, 2, 3]) if conc else 0,
+        "locale": rng.choice([None, None, None, None, None, "de_DE"]),
     }
 
 
@@ -39,6 +40,30 @@ def _alt_phases(plan, rng):
 
 def _inputs(rng, spec, n, **kw):
     return {f"k{i}": gen.gen_input(rng, spec, **kw) for i in range(n)}
+
+
+def _add_poison(plan, rng, prob=0.12):
+    """Some subjects are malformed (their evaluation raises); the caller guards each call.  The
+    property must keep holding for all the other subjects."""
+    if rng.random() > prob:
+        return
+    import copy
+
+    k0 = sorted(plan["inputs"])[0]
+    bad = copy.deepcopy(plan["inputs"][k0])
+    if bad["shape"][0] < 2 or plan["spec"].get("stub") is not None:
+        return
+    bad["poison"] = True
+    plan["inputs"]["bad"] = bad
+    names = ["bad-subject", "broken 1"]
+    for ph in plan["phases"]:
+        for sess in ph["sessions"]:
+            for nm in names[: rng.randint(1, 2)]:
+                tasks = sess["tasks"]
+                if not tasks:
+                    continue
+                t = rng.choice(tasks)
+                t.insert(rng.randrange(len(t) + 1), ["eval", t[0][1] if t else 0, nm, "bad"])
 
 
 def plan_c16(seed: int) -> dict:
@@ -73,13 +98,15 @@ def plan_c16(seed: int) -> dict:
         files["out.tsv"]["initial_subjects"] = [[s, subj_input[s]] for s in names[:k]]
         if rng.random() < 0.2:
             files["out.tsv"]["initial_bulk"] = rng.choice([60, 300, 900])
-    return {
+    plan = {
         "engine": "aggsim", "property": "C16", "seed": seed, "knobs": _knobs(rng),
         "spec": spec, "inputs": inputs, "files": files,
         "phases": [{"sessions": [{"group": "A", "aggs": ["out.tsv"], "tasks": tasks, "end": "graceful",
                                   "path_kind": rng.choice(["str", "path"]), "main_stat": rng.random() < 0.3}]}],
         "schedule": None,
     }
+    _add_poison(plan, rng)
+    return plan
 
 
 def plan_c17(seed: int, *, faults=True) -> dict:
@@ -126,6 +153,8 @@ def plan_c17(seed: int, *, faults=True) -> dict:
             end = rng.choice(["kill", "kill", "kill", "interrupt", "graceful"])
         sess = {"group": f"A{si}", "aggs": [MAIN], "tasks": mk_tasks(0, names, rng.randint(1, 3)), "end": end,
                 "path_kind": rng.choice(["str", "path"])}
+        if rng.random() < 0.12:
+            sess["recreate"] = rng.choice(["drop_first", "drop_after"])
         if not last and rng.random() < 0.3:
             # a partial submission: only some subjects in this session
             keep = [t for t in sess["tasks"] if rng.random() < 0.7] or sess["tasks"][:1]
@@ -162,6 +191,7 @@ def plan_c17(seed: int, *, faults=True) -> dict:
         "spec": spec, "inputs": inputs, "files": files, "phases": phases, "schedule": None,
     }
     _alt_phases(plan, rng)
+    _add_poison(plan, rng)
     # the output name may be given without its extension (documented: ".tsv" is appended)
     for fname in list(files):
         if fname.endswith(".tsv") and "." not in fname[:-4] and rng.random() < 0.15:
